@@ -150,10 +150,13 @@ fn fifo_order(log: &[IoRec], cfg: &HybCfg) -> Vec<(String, String)> {
             gens[i].2 = gens[i].2.max(r.completed_at.unwrap_or(u64::MAX));
         }
     }
-    // With several reclaimers the blocks are *picked* oldest first but cleaned in the completion order of
-    // their reclaim reads. The reclaim of a generation starts with the scanner's read of the block's first
-    // blob index page (offset 0; lookups never read offset 0): order generations by that read when there is
-    // one, else by the clean write.
+    // With several reclaimers the blocks are *picked* oldest first, but neither the first reclaim read nor
+    // the clean write of two blocks being reclaimed at the same time has to follow the pick order (a
+    // reclaimer task may be polled late). A reclaim lasts from the scanner's read of the block's first
+    // blob index page (offset 0; lookups never read offset 0) to the clean write; the order is violated
+    // if a younger generation was reclaimed *completely* before the reclaim of an older one started.
+    // (block, first write submitted, last write completed, reclaim started, cleaned)
+    let mut gens: Vec<(u32, u64, u64, u64, u64)> = gens.into_iter().map(|g| (g.0, g.1, g.2, g.3, g.3)).collect();
     for g in gens.iter_mut() {
         let start = log
             .iter()
@@ -167,7 +170,7 @@ fn fifo_order(log: &[IoRec], cfg: &HybCfg) -> Vec<(String, String)> {
     let mut out = vec![];
     for a in gens.iter() {
         for b in gens.iter() {
-            if a.0 != b.0 && b.2 < a.1 && a.3 < b.3 {
+            if a.0 != b.0 && b.2 < a.1 && a.4 < b.3 && a.4 != u64::MAX {
                 out.push((
                     "B.reclaim-order".to_string(),
                     format!(
